@@ -1377,8 +1377,10 @@ func (tx *tx) mayRollback(err error) error {
 
 // mayCommit may commit a transaction depending on the given transaction mode.
 func (tx *tx) mayCommit() error {
-	// Only commit if each file is wrapped in a transaction.
-	if tx.tx != nil && !tx.dryRun && tx.mode == txModeFile {
+	// Only commit if each file is wrapped in a transaction. An open transaction
+	// is per-file unless all files are wrapped in one (a file directive may
+	// select the file mode while the global mode is none).
+	if tx.tx != nil && !tx.dryRun && tx.mode != txModeAll {
 		return tx.commit()
 	}
 	return nil
